@@ -5,7 +5,19 @@ import os
 HERE = os.path.dirname(os.path.dirname(os.path.abspath(__file__)))
 
 CLAIMED = {
-    "C06": dict(
+    "C05": dict(
+        level="exploration", design="DESIGN.md 3/C05",
+        text=("Every scalar / top-level helper call of a seeded history (every documented call form: value, keywords, dict-as-"
+              "keywords, value + keywords, transform + attribute transforms; flags _inplace and _if; sentinels) is compared with "
+              "models.HostModel (prepared value, nested spec built / merged from keywords, f(old), defaults, several changes at once, "
+              "invalidated_by resets, untouched attributes unchanged), with identity rules (_inplace returns the receiver, _if=False "
+              "and UNCHANGED are no-ops returning the receiver) and with metamorphic relations run on clones: copy-run == in-place-run, "
+              "obj.a = v == with_a(v, _inplace=True), update(a=.., b=..) == with_a(..).with_b(..), nested keywords == constructing the "
+              "nested value first, MISSING keyword values skipped."),
+        note=("Trusted: models.HostModel (forms the documentation does not determine are counted as unmodelled; the metamorphic "
+              "relations still apply to them). with_<a>() without a value is not a no-op (pinned by test_class_attribute_masking)."),
+        technique="deterministic simulation: seeded operation histories vs executable reference model + metamorphic relations on clones",
+    ),    "C06": dict(
         level="exploration", design="DESIGN.md 3/C06",
         text=("Every element-helper call (with_/update_/transform_/without_<singular>) of a seeded history over generated classes "
               "with List/Dict/Set of ints, List/Dict of (keyed) spec items, KeyedList and KeyedSet attributes is executed on the real "
